@@ -29,7 +29,7 @@ def tokenize(source: str):
         token = field(scanner, ctx) or \
             repeater_placeholder(scanner) or \
             repeater_number(scanner) or \
-            repeater(scanner) or \
+            repeater(scanner, ctx) or \
             white_space(scanner) or \
             literal(scanner, ctx) or \
             operator(scanner) or \
@@ -132,8 +132,12 @@ def operator(scanner: Scanner):
         return tokens.Operator(op, inc_pos(scanner), scanner.pos)
 
 
-def repeater(scanner: Scanner):
+def repeater(scanner: Scanner, ctx: dict):
     "Consumes node repeat token from current scanner position and returns its parsed value"
+    if ctx['expression'] or ctx['quote']:
+        # Inside text or quoted value `*` is a plain character
+        return None
+
     start = scanner.pos
     if scanner.eat(Chars.Asterisk):
         scanner.start = scanner.pos
